@@ -162,14 +162,16 @@ func (vf *VersionedFetcher) Init(
 		false,
 	) // were going to discard and nuke this later
 
-	// run the DF init, VersionedFetchers only supports the Primary (0) index
+	// run the DF init, VersionedFetchers only supports the Primary (0) index: the temp store holds
+	// the replayed document and no secondary index entries, so the given index is not passed on
+	// (the filter is applied to the fetched document all the same)
 	vf.Fetcher = NewDocumentFetcher()
 	return vf.Fetcher.Init(
 		ctx,
 		identity,
 		vf.store,
 		documentACP,
-		index,
+		immutable.None[client.IndexDescription](),
 		col,
 		fields,
 		filter,
